@@ -233,6 +233,32 @@ def check(ctx):
         dom = cfg.dominates(cfg.by_ast[test], mn)
         ctx.ob("C17.R1.before", f"{g.qualname}|{k} test precedes the estimates", dom, g.where(test),
                "the test dominates the main return" if dom else "the estimates can be returned without this test having run")
+    # any OTHER return that hands back estimates (a shortcut frame with error_type 'none' / numbers in est_correction) is a regular
+    # answer as well: both irregularity tests have to have run before it, or an irregular history leaves through the shortcut
+    classified = {id(v[2]) for v in kinds.values()}
+    for pc, t, n in early:
+        if id(n) in classified:
+            continue
+        d_ = dict((a[1], bb) for a, bb in t[2][0][1] if a[0] == "const") if t[0] == "call" and t[2] and t[2][0][0] == "dict" else {}
+        et = d_.get("error_type")
+        nan_ = lambda x: x is not None and "numpy.nan" in ir.show(x, maxdepth=6)  # noqa: E731
+        if et is not None and et[0] == "const" and et[1] not in ("none", None) and nan_(d_.get("est_margin")) and nan_(d_.get("est_correction")):
+            continue  # one more kind of discarded history (missing estimates, error recorded)
+        rn = cfg.node_of(n)
+        missing = []
+        for k in ("monotone", "batch"):
+            if k not in kinds:
+                missing.append(k)
+                continue
+            test = kinds[k][2]
+            while not isinstance(test, ast.If):
+                test = test._parent
+            if not cfg.dominates(cfg.by_ast[test], rn):
+                missing.append(k)
+        ctx.ob("C17.R1.before", f"{g.qualname}|shortcut return after the irregularity tests", not missing, g.where(n),
+               "the shortcut answer is given only after both irregularity tests" if not missing
+               else f"estimates are returned under {ir.show(pc[-1][0], maxdepth=4)[:100]} without the {' / '.join(missing)} test having run: an irregular "
+                    "history that meets this condition is answered with non-missing corrections and no error recorded")
     errs = set()
     for k, (okc, t, n, txt) in kinds.items():
         d = dict((ir.show(a), bb) for a, bb in t[2][0][1]) if t[0] == "call" and t[2] and t[2][0][0] == "dict" else {}
